@@ -242,6 +242,13 @@ def generate(rng, tier):
                     op["release"] = False
                 elif rng.random() < 0.35:
                     op["ctx"] = True         # `with resource.request() as req:`
+                elif kind == "preemptive" and capacity >= 2 and rng.random() < 0.3:
+                    # a second slot of the same resource in a nested `with` block
+                    op["nested"] = {"id": rid(), "priority": rng.randint(0, 3),
+                                    "preempt": rng.random() < 0.7,
+                                    "hold": rng.choice([0.5, 1, 2, 3])}
+                    op.pop("patience", None)
+                    patience = None
             if patience is not None:
                 op["patience"] = patience
             ops.append(op)
@@ -280,6 +287,8 @@ class Follower:
             model.processed(rid, now)
         elif what == "cancel":
             model.cancel(rid)
+        if getattr(world, "batching", False):
+            return                 # more reports about this very instant follow
         observed = world.state(res)
         expected = model.state()
         self.compared += 1
